@@ -212,6 +212,9 @@ func c01Tensor(c *core.Ctx, t reflect.Type, lay string, shape []int) {
 				c.Violation(core.Sig("At", lay, sc, kind, "error-on-valid"), caseKey(coord), desc(coord), short(want), aerr.Error())
 			} else if !model.Same(got, want) {
 				c.Violation(core.Sig("At", lay, sc, kind, "wrong-element"), caseKey(coord), desc(coord), short(want), short(got))
+			} else if !model.Same(got, op.M.V[r]) {
+				// the raw element is the one the data order names, but it is not the element the constructor was given for this coordinate
+				c.Violation(core.Sig("At", lay, sc, kind, "not-the-given-sequence"), caseKey(coord), desc(coord), short(op.M.V[r]), short(got))
 			} else {
 				// write-probe: change exactly that raw element; At must follow
 				probe := other(want)
